@@ -196,3 +196,35 @@ def specialise(t, subst):
             return tuple(sub(y) for y in x)
         return x
     return fold_arith(rewrite(fold_arith(sub(t)), f))
+
+
+def exit_feasible(e, subst):
+    """False if some conjunct of the exit's path condition is decidable under subst and has the wrong polarity."""
+    for (t, pol) in e.pc:
+        try:
+            v = truth_eval(specialise(t, subst), {})
+        except (Unknown, KeyError, TypeError, ZeroDivisionError):
+            continue
+        if isinstance(v, tuple):
+            continue
+        if bool(v) != pol:
+            return False
+    return True
+
+
+def breakpoints(exits_or_terms, lo, hi, extra=()):
+    pts = {lo, hi}
+    cs = set(extra)
+    for x in exits_or_terms:
+        if hasattr(x, 'pc'):
+            for (t, pol) in x.pc:
+                cs |= constants_in(('wrap', t))
+            from .sym import term
+            cs |= constants_in(('wrap', term(x.value)))
+        else:
+            cs |= constants_in(('wrap', x))
+    for c in cs:
+        for d in (-1, 0, 1):
+            if lo <= c + d <= hi:
+                pts.add(c + d)
+    return sorted(pts)
